@@ -18,8 +18,9 @@ Definition DAY : Z := 24 * HOUR.
 (* columns a time predicate can be written on *)
 Inductive col :=
 | CTime            (* the partitioning column  time *)
-| CTimeLike        (* another column whose name ends in "time" (event_time, other_table.time) *)
-| CTimestampCol.   (* a column whose name ends in "timestamp" *)
+| CTimeLike        (* another column whose name ends in "time" (event_time) *)
+| CTimestampCol    (* a column whose name ends in "timestamp" (sample_timestamp) *)
+| CTsExact.        (* a column named exactly  timestamp *)
 
 Record tlit := { l_us : Z; l_ok : bool }.      (* value; does Go's parseDateTime accept the spelling? *)
 
@@ -38,12 +39,12 @@ Inductive wexpr :=
 | WAnd (a b : wexpr)
 | WOr (a b : wexpr).
 
-Record row := { r_time : Z; r_etime : Z; r_stime : Z; r_flags : list bool }.
+Record row := { r_time : Z; r_etime : Z; r_stime : Z; r_ts : Z; r_flags : list bool }.
 
 (* ---- DuckDB's reading of the clause ---- *)
 
 Definition colval (r : row) (c : col) : Z :=
-  match c with CTime => r_time r | CTimeLike => r_etime r | CTimestampCol => r_stime r end.
+  match c with CTime => r_time r | CTimeLike => r_etime r | CTimestampCol => r_stime r | CTsExact => r_ts r end.
 
 Definition cmp (op : cmpop) (a b : Z) : bool :=
   match op with
@@ -85,8 +86,10 @@ Fixpoint flatten (w : wexpr) : list atom :=
   | WOr a b => flatten a ++ flatten b
   end.
 
-Definition time_sfx (c : col) : bool := match c with CTime | CTimeLike => true | CTimestampCol => false end.
-Definition ts_sfx (c : col) : bool := match c with CTimestampCol => true | _ => false end.
+(* since 2f7fd11 the patterns start with \b: `\btime` matches the column time (and x.time), no
+   longer event_time; `\btimestamp` matches a column named timestamp, no longer sample_timestamp *)
+Definition time_sfx (c : col) : bool := match c with CTime => true | _ => false end.
+Definition ts_sfx (c : col) : bool := match c with CTsExact => true | _ => false end.
 
 Definition opb (a b : cmpop) : bool :=
   match a, b with
@@ -102,7 +105,7 @@ Fixpoint find_first {A} (f : atom -> option A) (l : list atom) : option A :=
   | a :: l' => match f a with Some x => Some x | None => find_first f l' end
   end.
 
-(* regexp  <sfx>\s*<op>\s*'([^']+)'  *)
+(* regexp  \b<sfx>\s*<op>\s*'([^']+)'  *)
 Definition m_cmp (sfx : col -> bool) (op : cmpop) (a : atom) : option tlit :=
   match a with
   | ACmp c o l => if sfx c && opb o op then Some l else None
@@ -195,12 +198,12 @@ Definition end_of (l : list atom) (now : Z) : option (Z * bool) :=
             end
   end.
 
-(* ExtractTimeRange; None = nil (no pruning) *)
-Definition extract (l : list atom) (now : Z) : option (Z * Z) :=
+(* ExtractTimeRange: Start, End, EndInclusive (since d443f9f); None = nil (no pruning) *)
+Definition extract (l : list atom) (now : Z) : option (Z * Z * bool) :=
   match start_of l now, end_of l now with
-  | Some s, Some (e, _) => Some (s, e)
-  | Some s, None => Some (s, now + DAY)
-  | None, Some (e, _) => Some (default_start, e)
+  | Some s, Some (e, incl) => Some (s, e, incl)
+  | Some s, None => Some (s, now + DAY, false)
+  | None, Some (e, incl) => Some (default_start, e, incl)
   | None, None => None
   end.
 
@@ -215,18 +218,18 @@ Definition est_paths (cur e : Z) : Z :=
   let span := e - cur * HOUR in
   if 0 <? span then let h := (span + HOUR - 1) / HOUR in h + (h / 24 + 1) else 0.
 
-(* for current.Before(end) { ...; current = current.Add(time.Hour) } *)
+(* for current.Before(end) || (EndInclusive && current.Equal(end)) { ...; current = current.Add(time.Hour) } *)
 Fixpoint hours_from (n : nat) (cur : Z) : list Z :=
   match n with
   | O => []
   | S n' => cur :: hours_from n' (cur + 1)
   end.
-Definition hours_between (cur e : Z) : list Z :=
-  hours_from (Z.to_nat ((e + HOUR - 1) / HOUR - cur)) cur.
+Definition hours_between (cur e : Z) (incl : bool) : list Z :=
+  hours_from (Z.to_nat ((e + HOUR - 1) / HOUR - cur + (if incl && (e mod HOUR =? 0) then 1 else 0))) cur.
 
-Definition gen (s e : Z) : option (list Z) :=
+Definition gen (s e : Z) (incl : bool) : option (list Z) :=
   let cur := start_hour s in
-  if max_paths <? est_paths cur e then None else Some (hours_between cur e).
+  if max_paths <? est_paths cur e then None else Some (hours_between cur e incl).
 
 Fixpoint dedup_adj (l : list Z) : list Z :=
   match l with
@@ -242,11 +245,11 @@ Definition days_of (hs : list Z) : list Z := dedup_adj (map (fun h => h / 24) hs
 Definition pruned_hours (w : wexpr) (now : Z) : option (list Z) :=
   match extract (flatten w) now with
   | None => None
-  | Some (s, e) => match gen s e with
-                   | None => None
-                   | Some [] => None
-                   | Some hs => Some hs
-                   end
+  | Some (s, e, incl) => match gen s e incl with
+                         | None => None
+                         | Some [] => None
+                         | Some hs => Some hs
+                         end
   end.
 
 (* where the rows of timestamp t are stored *)
@@ -316,24 +319,25 @@ Fixpoint has_or (w : wexpr) : bool :=
   match w with WAtom _ => false | WNot w' => has_or w' | WAnd a b => has_or a || has_or b | WOr _ _ => true end.
 Fixpoint has_not (w : wexpr) : bool :=
   match w with WAtom _ => false | WNot _ => true | WAnd a b => has_not a || has_not b | WOr a b => has_not a || has_not b end.
-Definition atom_on_time (a : atom) : bool :=
+(* the only predicates on another column that the patterns still take for the partition column:
+   comparisons of a column named  timestamp  with a literal *)
+Definition atom_ok (a : atom) : bool :=
   match a with
-  | ACmp CTime _ _ | ARel CTime _ _ _ _ | ABetween CTime _ _ | AFlag _ => true
-  | _ => false
+  | ACmp CTsExact _ _ => false
+  | _ => true
   end.
 
 (* 0: inside the domain of the soundness theorem; otherwise the first violated hypothesis:
-   1 top-level or nested OR, 2 NOT, 3 predicate on another column whose name ends in time/timestamp,
-   4 no lower bound (default 2020-01-01), 5 no upper bound (default now + 24 h),
-   6 inclusive upper bound on an hour boundary *)
+   1 top-level or nested OR, 2 NOT, 3 comparison on a column named timestamp,
+   4 no lower bound (default 2020-01-01), 5 no upper bound (default now + 24 h) *)
 Definition classify (w : wexpr) (now : Z) : N :=
   if has_or w then 1%N
   else if has_not w then 2%N
-  else if negb (forallb atom_on_time (flatten w)) then 3%N
+  else if negb (forallb atom_ok (flatten w)) then 3%N
   else match start_of (flatten w) now, end_of (flatten w) now with
        | None, _ => 4%N
        | _, None => 5%N
-       | Some _, Some (e, incl) => if incl && (e mod HOUR =? 0) then 6%N else 0%N
+       | Some _, Some _ => 0%N
        end.
 
 (* ---- correspondence cases ---- *)
@@ -352,10 +356,10 @@ Record pcase := {
   pc_gen : option gen_obs               (* observed hour paths and day paths, sorted; None = nil *)
 }.
 
-Definition opt_range_eqb (a b : option (Z * Z)) : bool :=
+Definition opt_range_eqb (a : option (Z * Z * bool)) (b : option (Z * Z)) : bool :=
   match a, b with
   | None, None => true
-  | Some (a1, a2), Some (b1, b2) => (a1 =? b1) && (a2 =? b2)
+  | Some (a1, a2, _), Some (b1, b2) => (a1 =? b1) && (a2 =? b2)
   | _, _ => false
   end.
 
@@ -379,8 +383,8 @@ Definition pcase_agrees (c : pcase) : bool :=
   opt_range_eqb ex (pc_range c) &&
   match ex with
   | None => match pc_gen c with None => true | Some _ => false end
-  | Some (s, e) =>
-      match gen s e, pc_gen c with
+  | Some (s, e, incl) =>
+      match gen s e incl, pc_gen c with
       | None, None => true
       | Some hs, Some o => gen_obs_agrees hs o
       | _, _ => false
